@@ -102,7 +102,9 @@ func TestC06Replay(t *testing.T) {
 // code under test and counted).
 func c06Family(c *vlib.Ctx) []CfgLit {
 	oatoms := []string{"https://a.b", "https://*.a.b", "https://a.b:*", "https://*.a.b:*", "https://c.a.b", "https://*.b", "http://1.2.3.4", "http://127.0.0.1:8080",
-		"http://[::1]", "http://[::1]:9090", "http://[2001:db8::1]:*", "https://a.b.", "*", "https://a.b:8443"}
+		"http://[::1]", "http://[::1]:9090", "http://[2001:db8::1]:*", "https://a.b.", "*", "https://a.b:8443",
+		// IPv6 literals whose texts share tails that end inside a hextet (radix fragments without a colon)
+		"http://[fe80::1]", "http://[fd80::1]:9090", "http://[1:db8::1]:*", "http://[::21]", "http://[1::1]", "http://xa.b", "https://*.xa.b"}
 	olists := lists(oatoms, vlib.Pick(c, 2, 3))[1:]
 	var out []CfgLit
 	// A: every origin list in four contexts
@@ -147,7 +149,7 @@ func c06Family(c *vlib.Ctx) []CfgLit {
 
 func checkC06(c *vlib.Ctx) (string, string) {
 	ck := &Checker[c06Case]{C: c, Judge: c06Judge, Test: c06Test}
-	rule := "every accepted configuration of a closed family (all ordered origin lists up to the stated length over 14 atoms incl. IPv4/IPv6 literals, subsuming pairs, trailing dots and *, in four contexts; and the product of all other fields for three origin lists) x derived request suite x both debug modes: NewMiddleware(c), NewMiddleware(*Config()) and zero+Reconfigure(&c) agree; three successive Reconfigure(Config()) succeed, change no response, and Config() is constant from the second on; non-trivial = distinct accepted configuration"
+	rule := "every accepted configuration of a closed family (all ordered origin lists up to the stated length over 21 atoms incl. IPv4/IPv6 literals, subsuming pairs, trailing dots and *, in four contexts; and the product of all other fields for three origin lists) x derived request suite x both debug modes: NewMiddleware(c), NewMiddleware(*Config()) and zero+Reconfigure(&c) agree; three successive Reconfigure(Config()) succeed, change no response, and Config() is constant from the second on; non-trivial = distinct accepted configuration"
 	if ck.Replay() {
 		return levelMC, rule
 	}
